@@ -1002,7 +1002,7 @@ Qed.
    with a permutation (vm_perm), so this fragment is symmetric as well: a document and such a variant are
    accepted together with the same message and rejected together.  What is left one-directional is only the
    addition of explicit nulls below the root (the relation itself is not symmetric there: the variant has more
-   members; at the root the iff is C03_padded_document_iff / the reordered-document theorems). *)
+   members; at the root the iff is C03_null_padded_reordered_document_same_message). *)
 Theorem C03_variant_without_nulls_is_symmetric : forall orc e root ms ms',
   CodecDecConversePerm.doc_vrespelled orc e root ms ms' -> CodecDecConversePerm.doc_vrespelled orc e root ms' ms.
 Proof. exact CodecDecConversePerm.doc_vrespelled_sym. Qed.
